@@ -141,6 +141,8 @@ func run(c *fw.Ctx) {
 	interfere()
 	// sequences of conversions (non-initial states)
 	seqPart(c, mine)
+	// value carried by a wrapped Ethereum transaction down to the contract executor
+	carriedPart(c, mine)
 
 	// (1) all small integers
 	lim := int64(1000000)
@@ -305,6 +307,10 @@ func replay(c *fw.Ctx, raw json.RawMessage) {
 		var sc seqCase
 		json.Unmarshal(raw, &sc)
 		seqOne(c, sc.A, sc.B, sc.Dec)
+	case "carried":
+		n, _ := new(big.Int).SetString(k.N, 10)
+		carriedSetup()
+		checkCarried(c, n)
 	case "int":
 		n, _ := new(big.Int).SetString(k.N, 10)
 		checkInt(c, n)
